@@ -280,6 +280,15 @@ def container_delegation(ctx):
                     calls.append((c, c.func.attr))
                 elif _is_member_expr(c.func, names):
                     calls.append((c, '__call__'))
+            # the member's method handed to a helper METHOD of the container as a value: `self._elementwise(self.members.export_value, value)`
+            # (the bare member datatype handed over is its __call__)
+            for c in ast.walk(f.node):
+                if isinstance(c, ast.Call) and isinstance(c.func, ast.Attribute) and dotted(c.func.value) == 'self' and c.func.attr in ci.methods and c.func.attr.startswith('_'):
+                    for a in c.args:
+                        if isinstance(a, ast.Attribute) and _is_member_expr(a.value, names):
+                            calls.append((c, a.attr))
+                        elif _is_member_expr(a, names) and isinstance(a, ast.Attribute):
+                            calls.append((c, '__call__'))
             # compatible(other.members...) etc: receiver must be OUR member
             calls = [(c, a) for c, a in calls if a not in ('items', 'values', 'keys', 'get')]
             construct = f'{f.qualname}:delegates to member.{meth}'
@@ -683,6 +692,10 @@ def an_empty_value_is_not_refused_by_its_truth_value(ctx):
             ctx.analysed(f)
             p = f.node.args.args[1].arg
             lens = _len_names(f, p)
+            # ... and locals holding the converted value itself (`result = b64decode(value)`): an empty blob / string / array is falsy too
+            lens |= {st.targets[0].id for st in body_walk(f.node) if isinstance(st, ast.Assign) and len(st.targets) == 1 and isinstance(st.targets[0], ast.Name)
+                     and isinstance(st.value, ast.Call) and any(isinstance(a, ast.Name) and a.id == p for a in st.value.args) and st.targets[0].id != p
+                     and dotted(st.value.func) not in ('isinstance', 'len', 'type')}
             hits = 0
             for st in body_walk(f.node):
                 if not isinstance(st, ast.If):
